@@ -395,6 +395,11 @@ def from_json(j):
             return types.SimpleNamespace(**{k: from_json(v) for k, v in j["__obj__"].items()})
         if "__dict__" in j:
             return {from_json(k): from_json(v) for k, v in j["__dict__"]}
+        if "__pickle__" in j:
+            import base64
+            import pickle
+
+            return pickle.loads(base64.b64decode(j["__pickle__"]))
         if "__bytes__" in j:
             return bytes(max(0, min(int(j["__bytes__"]), 100000)))
         if "__class__" in j:
